@@ -161,6 +161,7 @@ def gen_ft_case(rng, tier, lorch=False, omitted=False, channel=2, win=None, dy_k
     return {"xin": xin, "yin": yin, "xout": xout, "xmin": xmin, "xmax": xmax, "dy": dy,
             "lorch": bool(lorch), "omitted": bool(omitted), "channel": channel, "int_dtype": idt,
             "flagform": rng.choice(["bool", "bool", "npbool", "npbool", "int"]) if (lorch or omitted) else "bool",
+            "xout_form": rng.choice(["array", "array", "array", "list", "tuple"]),
             "desc": {"n": n, "m": m, "grid": gk, "int_arrays": "".join("1" if t else "0" for t in idt), "data": dk, "out": ok, "window": wk, "dy": uk,
                      "zero_on_grid": 0.0 in xin, "lorch": bool(lorch), "omitted": bool(omitted)}}
 
@@ -196,6 +197,8 @@ def call_ft(pystog, case, xin=None, yin=None, xout=None, dy="same", tr=None, **o
     xi = as_arr(case["xin"] if xin is None else xin, idt[0] and xin is None)
     yi = as_arr(case["yin"] if yin is None else yin, idt[1] and yin is None)
     xo = as_arr(case["xout"] if xout is None else xout, idt[2] and xout is None)
+    if case.get("xout_form") in ("list", "tuple") and xout is None:      # "numpy.array or list"
+        xo = (list if case["xout_form"] == "list" else tuple)(float(v) for v in case["xout"])
     xo_, yo, eo = tr.fourier_transform(xi, yi, xo, xmin=over.get("xmin", case["xmin"]), xmax=over.get("xmax", case["xmax"]),
                                        dy_in=None if d is None else np.array(d, float), **kw)
     return np.asarray(xo_, float), np.asarray(yo, float), np.asarray(eo, float)
@@ -288,6 +291,8 @@ def gen_named_case(rng, tier, direction, X, Y, lorch=False, omitted=False, chann
             "flagform": rng.choice(["bool", "bool", "npbool", "npbool", "int"]) if (lorch or omitted) else "bool",
             "callform": "kw" if (dy is not None and rng.random() < 0.35) else "pos",
             "minimal_kw": rng.random() < 0.4,
+            # (an output grid given as a list: only where the pinned code itself accepts one -- not the transforms that multiply r by a float)
+            "xout_form": rng.choice(["array", "array", "array", "list", "tuple"]) if (direction == 1 or Y == 1) else "array",
             "desc": {"method": "%s_to_%s" % (names_in[X], names_out[Y]), "n": n, "m": m, "grid": gk, "data": dk, "window": wk,
                      "int_arrays": "".join("1" if t else "0" for t in idt),
                      "out": ok, "dy": uk, "lorch": bool(lorch), "omitted": bool(omitted), "zero_on_grid": 0.0 in xin}}
@@ -339,6 +344,8 @@ def call_named(pystog, case, yin=None, dy="same", tr=None, **over):
     idt = case.get("int_dtype", [False, False, False])
     kw = named_kwargs(case, **over)
     args = [as_arr(case["xin"], idt[0]), as_arr(case["yin"] if yin is None else yin, idt[1] and yin is None), as_arr(case["xout"], idt[2])]
+    if case.get("xout_form") in ("list", "tuple"):      # "numpy.array or list"
+        args[2] = (list if case["xout_form"] == "list" else tuple)(float(v) for v in case["xout"])
     if case.get("callform") == "kw" and d is not None:
         kw[L.unc_kw(name)] = np.array(d, float)
         xo, yo, eo = f(*args, **kw)
